@@ -285,6 +285,262 @@ Proof.
   destruct (read_uint 4 s7) as [[lt s8]|e]; cbn [bind]; [discriminate | congruence].
 Qed.
 
+(* ---------- soundness of the reader: whatever it returns that the writer accepts IS a well-formed
+   transaction, and the writer emits that transaction's canonical legacy encoding ---------- *)
+Definition dflt (o : option N) : N := match o with Some v => v | None => 0 end.
+Definition unlift_in (i : pin) : txin :=
+  mk_txin (pi_hash i) (dflt (pi_index i)) (pi_script i) (dflt (pi_seq i)).
+Definition unlift_out (o : pout) : txout := mk_txout (dflt (po_amount o)) (po_script o).
+Definition unlift (p : ptx) : tx :=
+  mk_tx (dflt (p_version p)) (map unlift_in (p_ins p)) (map unlift_out (p_outs p)) (dflt (p_locktime p)).
+
+(* facts the reader guarantees about each element it returns *)
+Definition good_in (i : pin) : Prop :=
+  (pi_index i <> None -> length (pi_hash i) = 32%nat) /\
+  (pi_seq i <> None -> N.of_nat (length (pi_script i)) < MAXSIZE1).
+
+Lemma read_string_sound s scr r : read_string s = ROk (scr, r) ->
+  N.of_nat (length scr) < MAXSIZE1 \/ r = [].
+Proof.
+  unfold read_string. destruct (read_cs s) as [[n r0]|e]; cbn [bind]; [|discriminate].
+  unfold read_bytes. destruct n as [k|].
+  - destruct (N.ltb_spec k MAXSIZE1) as [Hk|Hk]; [|discriminate]. intro G. inversion G as [T].
+    apply take_spec in T as (_ & Hle & _). left. lia.
+  - intro G. inversion G; subst. right. reflexivity.
+Qed.
+
+Lemma read_string_len s scr r : read_string s = ROk (scr, r) -> (length scr + length r <= length s)%nat.
+Proof.
+  unfold read_string. destruct (read_cs s) as [[n r0]|e] eqn:E; cbn [bind]; [|discriminate].
+  apply read_cs_rest in E. unfold read_bytes. destruct n as [k|].
+  - destruct (k <? MAXSIZE1); [|discriminate]. intro G. inversion G as [T].
+    apply take_spec in T as (-> & _). rewrite app_length in E. lia.
+  - intro G. inversion G; subst. cbn. lia.
+Qed.
+
+Lemma parse_out_len s o r : parse_out s = ROk (o, r) ->
+  (length (po_script o) <= length s)%nat /\ (length r <= length s)%nat.
+Proof.
+  unfold parse_out.
+  destruct (read_uint 8 s) as [[amt s1]|e] eqn:E1; cbn [bind]; [|discriminate].
+  apply read_uint_rest in E1.
+  destruct (read_string s1) as [[scr s2]|e] eqn:E2; cbn [bind]; [|discriminate].
+  apply read_string_len in E2. intro G. inversion G; subst. cbn [po_script]. lia.
+Qed.
+
+Lemma parse_many_rest_le {A} (f : bytes -> res (A * bytes)) :
+  (forall s x r, f s = ROk (x, r) -> (length r <= length s)%nat) ->
+  forall fuel n s l r, parse_many f fuel n s = ROk (l, r) -> (length r <= length s)%nat.
+Proof.
+  intro Hf. induction fuel as [|fuel IH]; intros n s l r; cbn [parse_many]; destruct (n =? 0).
+  - intro G; inversion G; subst. lia.
+  - discriminate.
+  - intro G; inversion G; subst. lia.
+  - destruct (f s) as [[x r0]|e] eqn:F; cbn [bind]; [|discriminate].
+    destruct (parse_many f fuel (N.pred n) r0) as [[l0 r1]|e] eqn:E; cbn [bind]; [|discriminate].
+    intro G; inversion G; subst. apply Hf in F. apply IH in E. lia.
+Qed.
+
+(* an element property that may depend on how many bytes were available *)
+Lemma parse_many_Forall_bound {A} (f : bytes -> res (A * bytes)) (Q : A -> nat -> Prop) :
+  (forall s x r, f s = ROk (x, r) -> Q x (length s) /\ (length r <= length s)%nat) ->
+  (forall x a b, Q x a -> (a <= b)%nat -> Q x b) ->
+  forall fuel n s l r, parse_many f fuel n s = ROk (l, r) -> Forall (fun x => Q x (length s)) l.
+Proof.
+  intros Hf Hmono. induction fuel as [|fuel IH]; intros n s l r; cbn [parse_many]; destruct (n =? 0).
+  - intro G; inversion G; subst. constructor.
+  - discriminate.
+  - intro G; inversion G; subst. constructor.
+  - destruct (f s) as [[x r0]|e] eqn:F; cbn [bind]; [|discriminate].
+    destruct (parse_many f fuel (N.pred n) r0) as [[l0 r1]|e] eqn:E; cbn [bind]; [|discriminate].
+    intro G; inversion G; subst. apply Hf in F as [Fq Fl]. apply IH in E.
+    constructor; [exact Fq|]. eapply Forall_impl; [|exact E]. intros a Ha. cbv beta in Ha. exact (Hmono a _ _ Ha Fl).
+Qed.
+
+Lemma parse_in_good s i r : parse_in s = ROk (i, r) -> good_in i.
+Proof.
+  unfold parse_in. destruct (take 32 s) as [h s1] eqn:T.
+  destruct (read_uint 4 s1) as [[idx s2]|e] eqn:E1; cbn [bind]; [|discriminate].
+  destruct (read_string s2) as [[scr s3]|e] eqn:E2; cbn [bind]; [|discriminate].
+  destruct (read_uint 4 s3) as [[sq s4]|e] eqn:E3; cbn [bind]; [|discriminate].
+  intro H. inversion H; subst. unfold good_in. cbn [pi_index pi_hash pi_seq pi_script]. split.
+  - intro Hidx. apply take_spec in T as (_ & _ & [Hl|Hnil]).
+    + change 32 with (N.of_nat 32) in Hl. lia.
+    + subst s1. cbn in E1. inversion E1; subst. congruence.
+  - intro Hsq. apply read_string_sound in E2 as [Hl|Hnil]; [exact Hl|].
+    subst s3. cbn in E3. inversion E3; subst. congruence.
+Qed.
+
+Lemma parse_many_length {A} (f : bytes -> res (A * bytes)) fuel : forall n s l r,
+  parse_many f fuel n s = ROk (l, r) -> N.of_nat (length l) = n.
+Proof.
+  induction fuel as [|fuel IH]; intros n s l r; cbn [parse_many]; destruct (N.eqb_spec n 0) as [Z|Z].
+  - intro H; inversion H; subst. reflexivity.
+  - discriminate.
+  - intro H; inversion H; subst. reflexivity.
+  - destruct (f s) as [[x r0]|e]; cbn [bind]; [|discriminate].
+    destruct (parse_many f fuel (N.pred n) r0) as [[l0 r1]|e] eqn:E; cbn [bind]; [|discriminate].
+    intro H; inversion H; subst. apply IH in E. cbn [length]. lia.
+Qed.
+
+Lemma parse_many_Forall {A} (f : bytes -> res (A * bytes)) (P : A -> Prop) :
+  (forall s x r, f s = ROk (x, r) -> P x) ->
+  forall fuel n s l r, parse_many f fuel n s = ROk (l, r) -> Forall P l.
+Proof.
+  intro Hf. induction fuel as [|fuel IH]; intros n s l r; cbn [parse_many]; destruct (n =? 0).
+  - intro H; inversion H; subst. constructor.
+  - discriminate.
+  - intro H; inversion H; subst. constructor.
+  - destruct (f s) as [[x r0]|e] eqn:F; cbn [bind]; [|discriminate].
+    destruct (parse_many f fuel (N.pred n) r0) as [[l0 r1]|e] eqn:E; cbn [bind]; [|discriminate].
+    intro H; inversion H; subst. constructor; [eapply Hf; eassumption | eapply IH; eassumption].
+Qed.
+
+(* what a successful [deserialize] tells about the two element lists *)
+Lemma deserialize_inv raw p : deserialize raw = ROk p ->
+  Forall good_in (p_ins p) /\
+  Forall (fun o => (length (po_script o) <= length raw)%nat) (p_outs p) /\
+  N.of_nat (length (p_ins p)) < 18446744073709551616 /\
+  N.of_nat (length (p_outs p)) < 18446744073709551616.
+Proof.
+  unfold deserialize. set (fuel := S (length raw)). clearbody fuel.
+  destruct (read_uint 4 raw) as [[ver s1]|e] eqn:E1; cbn [bind]; [|discriminate].
+  apply read_uint_rest in E1.
+  destruct (read_cs s1) as [[ic0 s2]|e] eqn:E2; cbn [bind]; [|discriminate].
+  assert (Hfl : forall fl s3,
+    (if is_zero ic0
+     then do (f, a) <- read_uint 1 s2; do (ic1, b) <- read_cs a; ROk ((f, ic1), b)
+     else ROk ((Some 0, ic0), s2)) = ROk (fl, s3) ->
+    (length s3 <= length s2)%nat /\ forall n, snd fl = Some n -> n < 18446744073709551616).
+  { intros fl s3. destruct (is_zero ic0).
+    - destruct (read_uint 1 s2) as [[f a]|e] eqn:F1; cbn [bind]; [|discriminate].
+      apply read_uint_rest in F1.
+      destruct (read_cs a) as [[ic1 b]|e] eqn:F2; cbn [bind]; [|discriminate].
+      intro G. inversion G; subst. cbn [snd]. split; [apply read_cs_rest in F2; lia|].
+      intros n ->. eapply read_cs_lt; eassumption.
+    - intro G. inversion G; subst. cbn [snd]. split; [lia|]. intros n ->. eapply read_cs_lt; eassumption. }
+  apply read_cs_rest in E2.
+  destruct (if is_zero ic0 then _ else _) as [[fl s3]|e]; cbn [bind]; [|discriminate].
+  destruct (Hfl fl s3 eq_refl) as [L3 Hn].
+  destruct (snd fl) as [n|]; [|discriminate]. specialize (Hn n eq_refl).
+  destruct (parse_many parse_in fuel n s3) as [[ins s4]|e] eqn:PI; cbn [bind]; [|discriminate].
+  destruct (read_cs s4) as [[oc s5]|e] eqn:E3; cbn [bind]; [|discriminate].
+  destruct oc as [m|]; [|discriminate].
+  pose proof (read_cs_lt _ _ _ E3) as Hm. apply read_cs_rest in E3.
+  destruct (parse_many parse_out fuel m s5) as [[outs s6]|e] eqn:PO; cbn [bind]; [|discriminate].
+  destruct (if truthy (fst fl) then _ else _) as [[wits s7]|e]; cbn [bind]; [|discriminate].
+  destruct (read_uint 4 s7) as [[lt s8]|e]; cbn [bind]; [|discriminate].
+  intro G. inversion G; subst. cbn [p_ins p_outs].
+  split; [eapply parse_many_Forall; [exact parse_in_good | exact PI]|].
+  split.
+  - pose proof (parse_many_rest_le parse_in
+                  (fun s x r H => Nat.lt_le_incl _ _ (proj2 (parse_in_spec s) x r H)) _ _ _ _ _ PI) as L4.
+    pose proof (parse_many_Forall_bound parse_out (fun o k => (length (po_script o) <= k)%nat)
+                  parse_out_len (fun x a b H1 H2 => Nat.le_trans _ _ _ H1 H2) _ _ _ _ _ PO) as F.
+    eapply Forall_impl; [|exact F]. cbv beta. intros o Ho. lia.
+  - apply parse_many_length in PI. apply parse_many_length in PO. lia.
+Qed.
+
+Lemma pser_in_sound i b : pser_in i = ROk b -> good_in i ->
+  wf_in (unlift_in i) /\ lift_in (unlift_in i) = i /\ b = ser_in (unlift_in i).
+Proof.
+  unfold pser_in. intros H (Gh & Gs).
+  destruct (enc_uint 4 (pi_index i)) as [a|e] eqn:E1; cbn [bind] in H; [|discriminate].
+  destruct (enc_uint 4 (pi_seq i)) as [c|e] eqn:E2; cbn [bind] in H; [|discriminate].
+  apply enc_uint_ok in E1 as (v1 & Hv1 & Hr1 & ->). apply enc_uint_ok in E2 as (v2 & Hv2 & Hr2 & ->).
+  rewrite pow256_4 in Hr1, Hr2. inversion H; subst b. destruct i as [h idx scr sq].
+  cbn [pi_index pi_seq pi_hash pi_script] in *. subst idx sq.
+  unfold unlift_in, lift_in, ser_in, wf_in. cbn [pi_index pi_seq pi_hash pi_script dflt ti_hash ti_index ti_script ti_seq].
+  split; [|split; reflexivity].
+  split; [apply Gh; discriminate|]. split; [exact Hr1|]. split; [apply Gs; discriminate | exact Hr2].
+Qed.
+
+Lemma pser_out_sound o b : pser_out o = ROk b -> N.of_nat (length (po_script o)) < MAXSIZE1 ->
+  wf_out (unlift_out o) /\ lift_out (unlift_out o) = o /\ b = ser_out (unlift_out o).
+Proof.
+  unfold pser_out. intros H G.
+  destruct (enc_uint 8 (po_amount o)) as [a|e] eqn:E1; cbn [bind] in H; [|discriminate].
+  apply enc_uint_ok in E1 as (v1 & Hv1 & Hr1 & ->). rewrite pow256_8 in Hr1.
+  inversion H; subst b. destruct o as [amt scr]. cbn [po_amount po_script] in *. subst amt.
+  unfold unlift_out, lift_out, ser_out, wf_out. cbn [po_amount po_script dflt to_amount to_script].
+  split; [|split; reflexivity]. split; assumption.
+Qed.
+
+Lemma pser_list_sound {A B} (f : B -> res bytes) (un : B -> A) (lf : A -> B) (ser : A -> bytes)
+      (G : B -> Prop) (W : A -> Prop) :
+  (forall x b, f x = ROk b -> G x -> W (un x) /\ lf (un x) = x /\ b = ser (un x)) ->
+  forall l b, pser_list f l = ROk b -> Forall G l ->
+    Forall W (map un l) /\ map lf (map un l) = l /\ b = concat (map ser (map un l)).
+Proof.
+  intro Hf. induction l as [|x l IH]; intros b H HG.
+  - cbn in H. inversion H; subst. split; [constructor|]. split; reflexivity.
+  - cbn [pser_list] in H. destruct (f x) as [a|e] eqn:F; cbn [bind] in H; [|discriminate].
+    destruct (pser_list f l) as [c|e] eqn:R; cbn [bind] in H; [|discriminate].
+    inversion H; subst b. inversion HG; subst.
+    destruct (Hf x a F ltac:(assumption)) as (W1 & L1 & ->).
+    destruct (IH c eq_refl ltac:(assumption)) as (W2 & L2 & ->).
+    cbn [map concat]. split; [constructor; assumption|]. split; [rewrite L1, L2; reflexivity | reflexivity].
+Qed.
+
+Theorem reader_sound raw p b : N.of_nat (length raw) < MAXSIZE1 ->
+  deserialize raw = ROk p -> p_ins p <> [] -> pser p = ROk b ->
+  exists t, wf_tx t /\ b = serialize t /\
+            p_version p = Some (tx_version t) /\ p_ins p = map lift_in (tx_ins t) /\
+            p_outs p = map lift_out (tx_outs t) /\ p_locktime p = Some (tx_locktime t) /\
+            deserialize b = ROk (lift t).
+Proof.
+  intros Hraw D Hne H. apply deserialize_inv in D as (Gi & Go & Ni & No).
+  assert (Hshort : Forall (fun o => N.of_nat (length (po_script o)) < MAXSIZE1) (p_outs p)).
+  { eapply Forall_impl; [|exact Go]. cbv beta. intros o Ho. lia. }
+  unfold pser in H.
+  destruct (enc_uint 4 (p_version p)) as [v|e] eqn:E1; cbn [bind] in H; [|discriminate].
+  destruct (pser_list pser_in (p_ins p)) as [bi|e] eqn:E2; cbn [bind] in H; [|discriminate].
+  destruct (pser_list pser_out (p_outs p)) as [bo|e] eqn:E3; cbn [bind] in H; [|discriminate].
+  destruct (enc_uint 4 (p_locktime p)) as [l|e] eqn:E4; cbn [bind] in H; [|discriminate].
+  apply enc_uint_ok in E1 as (v1 & Hv1 & Hr1 & ->). apply enc_uint_ok in E4 as (v4 & Hv4 & Hr4 & ->).
+  rewrite pow256_4 in Hr1, Hr4.
+  destruct (pser_list_sound pser_in unlift_in lift_in ser_in good_in wf_in pser_in_sound _ _ E2 Gi)
+    as (Wi & Li & ->).
+  destruct (pser_list_sound pser_out unlift_out lift_out ser_out
+              (fun o => N.of_nat (length (po_script o)) < MAXSIZE1) wf_out pser_out_sound _ _ E3 Hshort)
+    as (Wo & Lo & ->).
+  assert (WF : wf_tx (unlift p)).
+  { unfold wf_tx, unlift. cbn [tx_version tx_locktime tx_ins tx_outs]. rewrite Hv1, Hv4. cbn [dflt].
+    rewrite !map_length.
+    split; [exact Hr1|]. split; [exact Hr4|]. split.
+    { destruct (p_ins p); [congruence | discriminate]. }
+    split; [exact Ni|]. split; [exact No|]. split; assumption. }
+  exists (unlift p). split; [exact WF|].
+  assert (Hb : b = serialize (unlift p)).
+  { inversion H; subst b. unfold serialize, unlift, ser_ins, ser_outs.
+    cbn [tx_version tx_locktime tx_ins tx_outs]. rewrite Hv1, Hv4. cbn [dflt]. rewrite !map_length.
+    reflexivity. }
+  split; [exact Hb|].
+  split; [unfold unlift; cbn [tx_version]; rewrite Hv1; reflexivity|].
+  split; [unfold unlift; cbn [tx_ins]; symmetry; exact Li|].
+  split; [unfold unlift; cbn [tx_outs]; symmetry; exact Lo|].
+  split; [unfold unlift; cbn [tx_locktime]; rewrite Hv4; reflexivity|].
+  rewrite Hb. rewrite <- (app_nil_r (serialize (unlift p))). apply deserialize_serialize. exact WF.
+Qed.
+
+(* the id of ANY accepted input: over the bytes as given when the flag is falsy, over the canonical
+   legacy encoding of the transaction that was read when the flag is truthy *)
+Section ParsedId.
+  Variable sha256 : bytes -> bytes.
+  Theorem parsed_id raw p b : N.of_nat (length raw) < MAXSIZE1 ->
+    deserialize raw = ROk p -> p_ins p <> [] -> pser p = ROk b ->
+    (exists t, wf_tx t /\ b = serialize t /\
+               p_version p = Some (tx_version t) /\ p_ins p = map lift_in (tx_ins t) /\
+               p_outs p = map lift_out (tx_outs t) /\ p_locktime p = Some (tx_locktime t) /\
+               deserialize b = ROk (lift t)) /\
+    txid_of_raw sha256 raw = ROk (rev (sha256 (sha256 (if truthy (p_flag p) then b else raw)))).
+  Proof.
+    intros Hraw D Hne H. split; [eapply reader_sound; eassumption|].
+    unfold txid_of_raw. rewrite D. cbn [bind]. unfold id_of_parsed.
+    destruct (truthy (p_flag p)); [rewrite H|]; reflexivity.
+  Qed.
+End ParsedId.
+
 (* ---------- why a transaction needs an input: the legacy encoding of a transaction without
    inputs starts with the segwit marker and is read as something else ---------- *)
 Lemma no_input_ambiguous :
